@@ -241,6 +241,19 @@ def c06_defgrad(case):
         rel = np.abs(Fb - want).max() / np.abs(want).max()
         if rel > 5e-3 + 1e-3 * 3:
             problems.append(f"{name}: bulk update returns F with relative error {rel:.3f}")
+    # one mineral object driven through DIFFERENT flows one after the other (other callables, other pathlines): each update must
+    # solve its own problem from the F it is given
+    names = list(flows)
+    for a, b in (("L(t)", "constant L"), ("constant L", "L(x(t))"), ("zero L", "L(t)"), ("periodic L(t)", "pure spin")):
+        m = _mineral("olivine", "olivine_A", "matrix_dislocation", 10, seed=2)
+        params = _params(number_of_grains=10)
+        with np.errstate(all="ignore"):
+            F1 = m.update_orientations(params, F0.copy(), flows[a][0], (0.0, 0.25, flows[a][1]))
+            F2 = m.update_orientations(params, F1.copy(), flows[b][0], (0.25, 0.5, flows[b][1]))
+        want2 = _rk4(flows[b][0], flows[b][1], F1, 0.25, 0.5)
+        rel = np.abs(F2 - want2).max() / np.abs(want2).max()
+        if rel > 5e-3 + 1e-3 * (2 + 2 * 1.0):
+            problems.append(f"same mineral, '{a}' then '{b}': the second update returns F with relative error {rel:.3f}")
     return {"reproduced": bool(problems), "detail": problems[:5] or "returned F solves dF/dt = L F on the replay inputs"}
 
 
